@@ -2,6 +2,7 @@ package main
 
 import (
 	"context"
+	"encoding/json"
 	"fmt"
 	"math/rand"
 	"reflect"
@@ -11,6 +12,7 @@ import (
 	"github.com/google/badwolf/bql/lexer"
 	"github.com/google/badwolf/bql/semantic"
 	"github.com/google/badwolf/bql/table"
+	"github.com/google/badwolf/storage"
 	"github.com/google/badwolf/triple"
 	"github.com/google/badwolf/triple/literal"
 	"github.com/google/badwolf/triple/predicate"
@@ -598,7 +600,15 @@ func genE2E13(r *rand.Rand) e2eCase {
 	var sel, where, tail string
 	var binds []string
 	shadow := false
-	switch r.Intn(8) {
+	switch r.Intn(10) {
+	case 8:
+		// HAVING of a CONSTRUCT: facts are built for exactly the solutions HAVING keeps
+		c.Shape = "construct"
+		sel, where, binds = "?s, ?o", `{?s "v"@[] ?o}`, []string{"?s", "?o"}
+	case 9:
+		// HAVING of a DECONSTRUCT: facts are removed for exactly the solutions HAVING keeps
+		c.Shape = "deconstruct"
+		sel, where, binds = "?s, ?o", `{?s "v"@[] ?o}`, []string{"?s", "?o"}
 	case 6:
 		// NAME COLLISION: HAVING on an alias that shadows a pattern binding (?o is the subject here)
 		c.Shape, shadow = "shadow", true
@@ -654,7 +664,12 @@ func genE2E13(r *rand.Rand) e2eCase {
 	// HAVING comes after ORDER BY in the grammar
 	c.Q = "SELECT " + sel + " FROM ?g WHERE " + where + tail + " HAVING " + having + ";"
 	c.Base, _ = runQuery(ctx, st, c.BaseQ)
-	res, stm := runQuery(ctx, st, c.Q)
+	if c.Shape == "construct" {
+		c.Q = `CONSTRUCT {?s "kept"@[] ?o} INTO ?out FROM ?g WHERE ` + where + " HAVING " + having + ";"
+	} else if c.Shape == "deconstruct" {
+		c.Q = `DECONSTRUCT {?s "v"@[] ?o} IN ?out FROM ?g WHERE ` + where + " HAVING " + having + ";"
+	}
+	res, stm := runHaving(ctx, st, c.Shape, c.Q, ts, c.Base)
 	c.Res = res
 	ex := e2e13Extra{Having: having}
 	for _, t := range intended {
@@ -765,4 +780,48 @@ func genE2E13Seq(r *rand.Rand) []e2eCase {
 		out = append(out, c)
 	}
 	return out
+}
+
+// runHaving runs a statement with a HAVING clause and returns the SOLUTIONS IT KEPT as rows: for SELECT the result table; for
+// CONSTRUCT {?s "kept"@[] ?o} INTO ?out the facts found in ?out afterwards; for DECONSTRUCT {?s "v"@[] ?o} IN ?out (where ?out
+// starts as a copy of the facts) the base rows whose fact is gone afterwards.  The order of the rows of the last two is not
+// meaningful.
+func runHaving(ctx context.Context, st storage.Store, shape, q string, ts []*triple.Triple, base execResult) (execResult, *semantic.Statement) {
+	if shape != "construct" && shape != "deconstruct" {
+		return runQuery(ctx, st, q)
+	}
+	g, err := st.NewGraph(ctx, "?out")
+	if err != nil {
+		panic(err)
+	}
+	if shape == "deconstruct" {
+		if err := g.AddTriples(ctx, ts); err != nil {
+			panic(err)
+		}
+	}
+	res, stm := runQuery(ctx, st, q)
+	if res.Outcome != "ok" {
+		return res, stm
+	}
+	if shape == "construct" {
+		kept, _ := runQuery(ctx, st, `SELECT ?s, ?o FROM ?out WHERE {?s "kept"@[] ?o};`)
+		return kept, stm
+	}
+	left, _ := runQuery(ctx, st, `SELECT ?s, ?o FROM ?out WHERE {?s "v"@[] ?o};`)
+	if left.Outcome != "ok" {
+		return left, stm
+	}
+	still := map[string]bool{}
+	for _, row := range left.Rows {
+		b, _ := json.Marshal(row)
+		still[string(b)] = true
+	}
+	out := execResult{Outcome: "ok", Bindings: base.Bindings}
+	for _, row := range base.Rows {
+		b, _ := json.Marshal(row)
+		if !still[string(b)] {
+			out.Rows = append(out.Rows, row)
+		}
+	}
+	return out, stm
 }
